@@ -13,11 +13,11 @@ ChainFiles == [t \in ChainT |-> {t \o "1"}]
 NoAliases == {}
 NoAliasMenu == <<>>
 
-\* diamond a <- {b, c} <- d, d has a directory output, b writes into a sub-directory
+\* diamond a <- {b, c} <- d; c and d have directory outputs (so a directory output has a dependant), b writes into a sub-directory
 DiaT == {"a", "b", "c", "d"}
 DiaOrder == <<"a", "b", "c", "d">>
 DiaDeps == [t \in DiaT |-> CASE t = "a" -> {} [] t = "b" -> {"a"} [] t = "c" -> {"a"} [] t = "d" -> {"b", "c"}]
-DiaKind == [t \in DiaT |-> CASE t = "b" -> "sub" [] t = "d" -> "dir" [] OTHER -> "file"]
+DiaKind == [t \in DiaT |-> CASE t = "b" -> "sub" [] t = "c" -> "dir" [] t = "d" -> "dir" [] OTHER -> "file"]
 DiaFiles == [t \in DiaT |-> IF t = "a" THEN {"a1", "a2"} ELSE {t \o "1"}]
 
 \* alias hop: a, b sources; x = alias -> a | b; c depends on x; g has glob inputs
